@@ -342,10 +342,11 @@ def run(ctx):
     rng = ctx.rng
     ctx.lean = common.lean_check('C17')
     quick = ctx.quick()
+    common.run_regressions(ctx, 'C17', recheck)
     stream_filter(ctx, rng, 300 if quick else 3000)
     problems = []
     for e in common.load_corpus('C17'):
-        if 'problem' in e:
+        if 'problem' in e and 'regress' not in e:
             problems.append(e['problem'])
     for _ in range(8 if quick else 60):
         problems.append(gen_sig_problem(rng))
@@ -360,6 +361,34 @@ def run(ctx):
              'relaxations of small bounded problems (X none / inferred plain / inferred with auxiliary columns), tolerance pairs x skip_ls x '
              '(heuristic_signs, all_signs, zero_tol); non-trivial = at least one constraint value / one solved relaxation; distinct = distinct JSON',
         trusted=TRUSTED, assumptions=ASSUME)
+
+
+def recheck(r):
+    """execute the stored input of a violation again; the violation it (still) shows (recorded findings excepted)"""
+    k = r.get('stream')
+    if k == 'select':
+        log = common.RecCtx()
+        # the options twice: second and later calls on the same solved problem are part of the property
+        kind, res = common.forked(lambda: (select_one(log, r['problem'], [r['opts'], r['opts']]), log.violations)[1], timeout=600)
+        if kind != 'ok':
+            return None
+        for what, _, tags in res:
+            if not tags:
+                return what
+        return None
+    if k == 'filter':
+        import sageopt.relaxations.sig_solution_recovery as ssr
+        c = r['case']
+
+        def num(v):
+            return float(v) if v in ('nan', 'inf', '-inf') else float(F(v))
+        gt, eq = [num(v) for v in c['gt']], [num(v) for v in c['eq']]
+        it, et = float(F(c['ineq_tol'])), float(F(c['eq_tol']))
+        got = bool(ssr.is_feasible(np.zeros(1), [(lambda z, v=v: v) for v in gt], [(lambda z, v=v: v) for v in eq], it, et))
+        want = all(v >= -it for v in gt) and all(abs(v) <= et for v in eq)        # (comparisons with NaN are False)
+        if got != want:
+            return 'is_feasible returns %s for constraint values gts=%s eqs=%s with ineq_tol=%s eq_tol=%s' % (got, c['gt'], c['eq'], c['ineq_tol'], c['eq_tol'])
+    return None
 
 
 def replay(obj):
